@@ -1467,8 +1467,10 @@ Proof.
     exists (VArr []), VNull. split; [reflexivity|]. split; [exact Hwf|]. split; [apply hext_refl|]. split; [reflexivity|].
     split; [exact He0|]. split; [split; [reflexivity|split; constructor]|]. split; [exact Hnf0|]. split; [exact Hbs0|].
     apply Permutation_refl.
-  - split; [discriminate|]. intros h' v' res E. inversion E; subst. clear E.
-    set (items := it0 :: itr) in *.
+  - split; [discriminate|]. intros h' v' res E.
+    assert (E' : (h', v', res) = (h, MArr r a0 sid cap (removelast (it0 :: itr)), last (it0 :: itr) MNull))
+      by (inversion E; reflexivity).
+    clear E. set (items := it0 :: itr) in *. injection E' as Eh Ev Er. subst h' v' res. rename h into h'.
     assert (Hne : items <> []) by discriminate.
     assert (Hys : ys <> []) by (intros ->; inversion El2).
     pose proof (app_removelast_last MNull Hne) as Hsplit.
@@ -1478,17 +1480,332 @@ Proof.
     { rewrite erase_arr, Es.
       assert (El' : erase_list h' (removelast items) = Some (removelast ys))
         by (apply erase_list_Forall2; apply Forall2_removelast; exact El2).
+      change (option_map VArr (erase_list h' (removelast items)) = Some (VArr (removelast ys))).
       rewrite El'. reflexivity. }
     assert (Hnfs : Forall (vall nf) (removelast items) /\ vall nf (last items MNull)).
     { rewrite Hsplit in Hnfi. apply Forall_app in Hnfi. destruct Hnfi as [H1 H2]. inversion H2; subst. auto. }
     assert (Hbss : Forall (vall bsr) (removelast items) /\ vall bsr (last items MNull)).
     { rewrite Hsplit in Hbsi. apply Forall_app in Hbsi. destruct Hbsi as [H1 H2]. inversion H2; subst. auto. }
     split.
-    { split; [|split; tauto]. apply (Forall2_last (fun v a => erase h' v = Some a)); [exact El2|reflexivity]. }
+    { change (val_res h' (last items MNull) (last ys VNull)).
+      split; [|split; tauto]. apply (Forall2_last (fun v a => erase h' v = Some a)); [exact El2|reflexivity]. }
     split; [apply vall_arr; split; [exact HnfS|tauto]|].
     split; [apply vall_arr; split; [exact I|tauto]|].
     rewrite !ids_arr, app_nil_r.
     assert (Hids : ids_of (refs_list items) = ids_of (refs_list (removelast items ++ [last items MNull])))
       by (rewrite <- Hsplit; reflexivity).
     rewrite Hids, refs_list_app, ids_of_app. cbn [refs_list]. rewrite app_nil_r. apply Permutation_refl.
+Qed.
+
+(* ------------------------------------------------------------------ *)
+(* one machine step preserves the invariant and the agreement *)
+
+Definition StepOK (o : op) : Prop := forall st ast, MemInv st -> Sim st ast ->
+  step cfg_repaired st o <> MFault /\
+  (forall st', step cfg_repaired st o = MOk st' ->
+     exists ast', astep ast o = Some ast' /\ MemInv st' /\ Sim st' ast').
+
+Lemma mk_inv : forall h e out tmps ctl,
+  Good h (env_vals e ++ out) (tmps ++ all_saved ctl) -> CtlOK ctl (length (h_frame h)) ->
+  MemInv (mkSt h e out tmps ctl).
+Proof. intros. apply meminv_good. split; assumption. Qed.
+
+Lemma mk_sim : forall h e out tmps ctl ae aout atmps actl,
+  Forall2 (Forall2 (prel (vrel h))) e ae -> Forall2 (vrel h) out aout -> Forall2 (vrel h) tmps atmps ->
+  Forall2 (crel (vrel h)) ctl actl -> Sim (mkSt h e out tmps ctl) (mkASt ae aout atmps actl).
+Proof. intros. constructor; assumption. Qed.
+
+Ltac start :=
+  intros [h e out tmps ctl] [ae aout atmps actl] Hinv Hsim;
+  apply meminv_good in Hinv; unfold stored, temps in Hinv;
+  cbn [m_heap m_env m_out m_tmps m_ctl] in Hinv; destruct Hinv as [HG HC];
+  destruct Hsim as [Se So St Sc]; cbn [m_heap m_env m_out m_tmps m_ctl a_env a_out a_tmps a_ctl] in *.
+
+Lemma env_any : forall h h' e ae, hext anyref h h' ->
+  Forall2 (Forall2 (prel (vrel h))) e ae -> Forall2 (Forall2 (prel (vrel h'))) e ae.
+Proof. intros. eapply env_transfer; eauto using Forall_vall_any. Qed.
+Lemma vals_any : forall h h' l al, hext anyref h h' -> Forall2 (vrel h) l al -> Forall2 (vrel h') l al.
+Proof. intros. eapply vrel_transfer; eauto using Forall_vall_any. Qed.
+Lemma ctl_any : forall h h' c ac, hext anyref h h' -> Forall2 (crel (vrel h)) c ac -> Forall2 (crel (vrel h')) c ac.
+Proof. intros. eapply ctl_transfer; eauto using Forall_vall_any. Qed.
+
+Lemma good_any : forall h h' s t, Good h s t -> HeapWF h' -> hext anyref h h' -> Good h' s t.
+Proof. intros. eapply good_hext; eauto using Forall_vall_any. Qed.
+
+(* a new temporary that owns no pool slot *)
+Lemma good_new_t : forall h s t v, Good h s t -> erase h v <> None -> vall bsr v -> ids v = [] -> Good h s (v :: t).
+Proof.
+  intros h s t v HG He Hb Hi. apply good_join_t; auto.
+  - rewrite Hi. constructor.
+  - rewrite Hi. intros i [].
+Qed.
+
+Lemma step_scalar : forall s, StepOK (OScalar s).
+Proof.
+  intros s. start. split; [discriminate|]. intros st' E. cbn in E. inversion E; subst. clear E.
+  eexists. split; [reflexivity|]. split.
+  - apply mk_inv; [|exact HC]. cbn [app]. apply good_new_t; auto; destruct s; cbn; try discriminate; constructor.
+  - apply mk_sim; [exact Se|exact So| |exact Sc]. constructor; [|exact St]. destruct s; reflexivity.
+Qed.
+
+Lemma step_lit : forall b, StepOK (OLit b).
+Proof.
+  intros b. start. split; [cbn; discriminate|]. intros st' E. cbn in E. inversion E; subst. clear E.
+  pose proof (hext_static_alloc h b) as Hext. cbn [static_alloc fst] in Hext.
+  assert (Hwf' : HeapWF (set_static h (h_static h ++ [b]))) by (apply heapwf_static; apply HG).
+  eexists. split; [reflexivity|]. split.
+  - apply mk_inv; [|exact HC]. cbn [app]. apply good_new_t.
+    + eapply good_any; eauto.
+    + cbn. rewrite nth_error_snoc_new, check_len_self. discriminate.
+    + constructor; [reflexivity|constructor].
+    + reflexivity.
+  - apply mk_sim; eauto using env_any, vals_any, ctl_any.
+    constructor; [|eauto using vals_any]. unfold vrel. cbn. rewrite nth_error_snoc_new, check_len_self. reflexivity.
+Qed.
+
+Lemma step_drop : StepOK ODrop.
+Proof.
+  start. split; [cbn; destruct tmps; discriminate|]. intros st' E. cbn in E.
+  destruct tmps as [|v rest]; [discriminate|]. inversion E; subst. clear E.
+  inversion St as [|? a ? arest Hv Hrest]; subst. eexists. split; [reflexivity|]. split.
+  - apply mk_inv; [|exact HC]. cbn [app] in HG. eapply good_drop_t; eauto.
+  - apply mk_sim; assumption.
+Qed.
+
+Lemma step_pushscope : StepOK OPushScope.
+Proof.
+  start. split; [discriminate|]. intros st' E. cbn in E. inversion E; subst. clear E.
+  eexists. split; [reflexivity|]. split.
+  - apply mk_inv; [|exact HC]. exact HG.
+  - apply mk_sim; [|exact So|exact St|exact Sc]. constructor; [constructor|exact Se].
+Qed.
+
+Lemma live_erase_list : forall h l, Forall (fun v => erase h v <> None) l -> exists xs, erase_list h l = Some xs.
+Proof.
+  intros h l H. induction H as [|v l Hv Hl IH]; [exists []; reflexivity|].
+  destruct IH as [xs Hxs]. destruct (erase h v) as [x|] eqn:E; [|congruence].
+  exists (x :: xs). rewrite erase_list_cons, E, Hxs. reflexivity.
+Qed.
+
+Lemma erase_list_live : forall h l xs, erase_list h l = Some xs -> Forall (fun v => erase h v <> None) l.
+Proof.
+  intros h l xs H. apply erase_list_Forall2 in H. induction H as [|v a l xs Hv Hl IH]; constructor; auto.
+  rewrite Hv. discriminate.
+Qed.
+
+Lemma good_drop_app : forall l h s t, Good h s (l ++ t) -> Good h s t.
+Proof. induction l as [|v l IH]; intros h s t H; [exact H|]. apply IH. eapply good_drop_t. exact H. Qed.
+
+Lemma good_bundle : forall h s l t r a sid cap items, Permutation items l -> Good h s (l ++ t) ->
+  store_live h r a sid = true -> Good h s (MArr r a sid cap items :: t).
+Proof.
+  intros h s l t r a sid cap items Hperm (Hwf & Hl & Hn & Hf & Hb) Hlive.
+  assert (Hp1 : Permutation (s ++ l ++ t) (l ++ s ++ t)).
+  { rewrite !app_assoc. apply Permutation_app_tail. apply Permutation_app_comm. }
+  assert (Hp2 : Permutation (MArr r a sid cap items :: s ++ t) (s ++ MArr r a sid cap items :: t)) by apply Permutation_middle.
+  pose proof (Permutation_Forall Hp1 Hl) as Hl1. apply Forall_app in Hl1. destruct Hl1 as [Hll Hlst].
+  pose proof (Permutation_Forall Hp1 Hb) as Hb1. apply Forall_app in Hb1. destruct Hb1 as [Hbl Hbst].
+  pose proof (Permutation_NoDup (Permutation_flat_map ids Hp1) Hn) as Hn1. rewrite flat_map_app in Hn1.
+  refine (conj Hwf (conj _ (conj _ (conj Hf _)))).
+  - eapply Permutation_Forall; [exact Hp2|]. constructor; [|exact Hlst].
+    rewrite erase_arr, Hlive.
+    destruct (live_erase_list h items) as [xs Hxs].
+    { eapply Permutation_Forall; [apply Permutation_sym; exact Hperm|exact Hll]. }
+    rewrite Hxs. discriminate.
+  - eapply Permutation_NoDup; [apply Permutation_flat_map; exact Hp2|]. cbn [flat_map].
+    rewrite ids_arr, ids_of_refs_list.
+    eapply Permutation_NoDup; [|exact Hn1]. apply Permutation_app_tail.
+    apply Permutation_flat_map. apply Permutation_sym. exact Hperm.
+  - eapply Permutation_Forall; [exact Hp2|]. constructor; [|exact Hbst].
+    apply vall_arr. split; [exact I|]. eapply Permutation_Forall; [apply Permutation_sym; exact Hperm|exact Hbl].
+Qed.
+
+Lemma good_unbundle : forall h s t r a sid cap items, Good h s (MArr r a sid cap items :: t) -> Good h s (items ++ t).
+Proof.
+  intros h s t r a sid cap items (Hwf & Hl & Hn & Hf & Hb).
+  assert (Hp2 : Permutation (s ++ MArr r a sid cap items :: t) (MArr r a sid cap items :: s ++ t))
+    by (apply Permutation_sym, Permutation_middle).
+  assert (Hp1 : Permutation (items ++ s ++ t) (s ++ items ++ t)).
+  { rewrite !app_assoc. apply Permutation_app_tail. apply Permutation_app_comm. }
+  pose proof (Permutation_Forall Hp2 Hl) as Hl2. inversion Hl2 as [|? ? Harr Hlst]; subst.
+  pose proof (Permutation_Forall Hp2 Hb) as Hb2. inversion Hb2 as [|? ? Hbarr Hbst]; subst.
+  pose proof (Permutation_NoDup (Permutation_flat_map ids Hp2) Hn) as Hn2. cbn [flat_map] in Hn2.
+  rewrite ids_arr, ids_of_refs_list in Hn2.
+  rewrite erase_arr in Harr. destruct (store_live h r a sid); [|congruence].
+  destruct (erase_list h items) as [xs|] eqn:El; [|cbn in Harr; congruence].
+  apply vall_arr in Hbarr. destruct Hbarr as [_ Hbitems].
+  refine (conj Hwf (conj _ (conj _ (conj Hf _)))).
+  - eapply Permutation_Forall; [exact Hp1|]. apply Forall_app. split; [eapply erase_list_live; eauto|exact Hlst].
+  - eapply Permutation_NoDup; [apply Permutation_flat_map; exact Hp1|]. rewrite flat_map_app. exact Hn2.
+  - eapply Permutation_Forall; [exact Hp1|]. apply Forall_app. split; assumption.
+Qed.
+
+Lemma nth_error_perm {A} : forall (l : list A) i x, nth_error l i = Some x -> exists rest, Permutation l (x :: rest).
+Proof.
+  intros l i x H. destruct (nth_error_split_upd l i x x H) as [Hs _].
+  exists (firstn i l ++ skipn (S i) l). rewrite Hs at 1. apply Permutation_sym, Permutation_middle.
+Qed.
+
+Lemma step_read : forall x, StepOK (ORead x).
+Proof.
+  intros x. start. cbn [step m_env m_heap cfg_repaired c_alias].
+  pose proof (env_find_F2 _ x e ae Se) as Hf.
+  destruct (env_find x e) as [v|] eqn:Ef; [|split; [discriminate|intros ? E; discriminate]].
+  destruct Hf as (a & Haf & Hva).
+  assert (Hin : In v ((env_vals e ++ out) ++ tmps ++ all_saved ctl)).
+  { apply in_or_app. left. apply in_or_app. left. eapply env_find_in; eauto. }
+  destruct (good_in _ _ _ _ HG Hin) as ((xv & Exv) & Hbv & _).
+  destruct HG as (Hwf & HGrest). pose proof (conj Hwf HGrest) as HG.
+  destruct (clone_spec v h xv Hwf Exv Hbv) as (h1 & v' & Hc & Hwf1 & Hext & Ev' & Hids & Hbs' & Hfr).
+  rewrite Hc. split; [discriminate|]. intros st' E. inversion E; subst. clear E.
+  cbn [astep a_env a_out a_tmps a_ctl]. rewrite Haf. eexists. split; [reflexivity|]. split.
+  - apply mk_inv; [|eapply ctlok_mono; eauto]. cbn [app]. apply good_new_t; auto.
+    + eapply good_any; eauto.
+    + rewrite Ev'. discriminate.
+  - apply mk_sim; [eauto using env_any|eauto using vals_any| |eauto using ctl_any]. constructor; [|eauto using vals_any].
+    unfold vrel in *. congruence.
+Qed.
+
+Lemma step_interp : forall x, StepOK (OInterp x).
+Proof.
+  intros x. start. cbn [step m_env m_heap].
+  pose proof (env_find_F2 _ x e ae Se) as Hf.
+  destruct (env_find x e) as [v|] eqn:Ef; [|split; [discriminate|intros ? E; discriminate]].
+  destruct Hf as (a & Haf & Hva).
+  assert (Hin : In v ((env_vals e ++ out) ++ tmps ++ all_saved ctl)).
+  { apply in_or_app. left. apply in_or_app. left. eapply env_find_in; eauto. }
+  destruct (good_in _ _ _ _ HG Hin) as ((xv & Exv) & Hbv & _).
+  rewrite Exv. cbn [frame_alloc]. split; [discriminate|]. intros st' E. inversion E; subst. clear E.
+  pose proof (hext_frame_alloc h (OBytes (display xv))) as Hext. cbn [frame_alloc fst] in Hext.
+  assert (Hwf' : HeapWF (set_frame h (h_frame h ++ [OBytes (display xv)]))) by (apply heapwf_frame; apply HG).
+  assert (Enew : erase (set_frame h (h_frame h ++ [OBytes (display xv)]))
+                   (MOwned RFrame (length (h_frame h)) (length (display xv)) (length (display xv))) = Some (VStr (display xv))).
+  { cbn. rewrite nth_error_snoc_new, check_len_self. reflexivity. }
+  cbn [astep a_env a_out a_tmps a_ctl]. rewrite Haf. eexists. split; [reflexivity|]. split.
+  - apply mk_inv; [|eapply ctlok_mono; [|exact HC]; cbn; rewrite app_length; lia]. cbn [app]. apply good_new_t.
+    + eapply good_any; eauto.
+    + rewrite Enew. discriminate.
+    + constructor; [exact I|constructor].
+    + reflexivity.
+  - apply mk_sim; [eauto using env_any|eauto using vals_any| |eauto using ctl_any]. constructor; [|eauto using vals_any].
+    unfold vrel in *. rewrite Enew. congruence.
+Qed.
+
+Lemma str_bytes_sim : forall h v a, erase h v = Some a ->
+  str_bytes h v <> MFault /\ (forall b, str_bytes h v = MOk b -> a = VStr b).
+Proof.
+  intros h v a He. destruct v as [x|b| |r a0 len|r a0 len cap|r a0 sid cap items]; cbn [str_bytes];
+    try (split; [discriminate|intros ? E; discriminate]).
+  - cbn [erase] in He. destruct (read_bytes h r a0 len) as [b|]; [|discriminate]. cbn.
+    split; [discriminate|]. intros b' E. inversion E; subst. inversion He. reflexivity.
+  - cbn [erase] in He. destruct (read_bytes h r a0 len) as [b|]; [|discriminate]. cbn.
+    split; [discriminate|]. intros b' E. inversion E; subst. inversion He. reflexivity.
+Qed.
+
+Lemma step_concat : StepOK OConcat.
+Proof.
+  start. cbn [step m_tmps m_heap].
+  destruct tmps as [|r [|l rest]]; try (split; [discriminate|intros ? E; discriminate]).
+  inversion St as [|? ar ? ? Hr St1]; subst. inversion St1 as [|? al ? arest Hl Hrest]; subst.
+  destruct (str_bytes_sim _ _ _ Hl) as [Hnfl Hokl]. destruct (str_bytes_sim _ _ _ Hr) as [Hnfr Hokr].
+  destruct (str_bytes h l) as [bl| |] eqn:El; cbn [mbind]; try (split; [discriminate|intros ? E; discriminate]);
+    [|exfalso; apply Hnfl; reflexivity].
+  destruct (str_bytes h r) as [br| |] eqn:Er; cbn [mbind]; try (split; [discriminate|intros ? E; discriminate]);
+    [|exfalso; apply Hnfr; reflexivity].
+  cbn [frame_alloc]. split; [discriminate|]. intros st' E. inversion E; subst. clear E.
+  rewrite (Hokl _ eq_refl), (Hokr _ eq_refl).
+  pose proof (hext_frame_alloc h (OBytes (bl ++ br))) as Hext. cbn [frame_alloc fst] in Hext.
+  assert (Hwf' : HeapWF (set_frame h (h_frame h ++ [OBytes (bl ++ br)]))) by (apply heapwf_frame; apply HG).
+  assert (Enew : erase (set_frame h (h_frame h ++ [OBytes (bl ++ br)]))
+                   (MOwned RFrame (length (h_frame h)) (length (bl ++ br)) (length (bl ++ br))) = Some (VStr (bl ++ br))).
+  { cbn. rewrite nth_error_snoc_new, check_len_self. reflexivity. }
+  eexists. split; [reflexivity|]. split.
+  - apply mk_inv; [|eapply ctlok_mono; [|exact HC]; cbn; rewrite app_length; lia]. cbn [app] in *. apply good_new_t.
+    + eapply good_any; eauto. eapply good_drop_t. eapply good_drop_t. exact HG.
+    + rewrite Enew. discriminate.
+    + constructor; [exact I|constructor].
+    + reflexivity.
+  - apply mk_sim; [eauto using env_any|eauto using vals_any| |eauto using ctl_any]. constructor; [exact Enew|eauto using vals_any].
+Qed.
+
+Lemma firstn_skipn_perm {A} : forall n (l : list A), Permutation (rev (firstn n l)) (firstn n l).
+Proof. intros. apply Permutation_sym, Permutation_rev. Qed.
+
+Lemma step_mkarr : forall n, StepOK (OMkArr n).
+Proof.
+  intros n. start. cbn [step m_tmps m_heap].
+  destruct (Nat.leb n (length tmps)) eqn:Eleb; [|split; [discriminate|intros ? E; discriminate]].
+  cbn [fresh_sid frame_alloc]. split; [discriminate|]. intros st' E. inversion E; subst. clear E.
+  match goal with |- context [set_frame ?a ?b] => set (h1 := set_frame a b) end.
+  assert (Hext : hext anyref h h1).
+  { eapply hext_trans; [apply hext_fresh_sid|apply (hext_frame_alloc (fst (fresh_sid h)) (OVec (h_next h)))]. }
+  assert (Hwf1 : HeapWF h1) by (apply heapwf_frame; apply (heapwf_fresh_sid h); apply HG).
+  assert (Hlive : store_live h1 RFrame (length (h_frame h)) (h_next h) = true).
+  { unfold store_live. cbn. rewrite nth_error_snoc_new, Nat.eqb_refl. reflexivity. }
+  assert (Hlen : length tmps = length atmps) by (eapply Forall2_len; eauto).
+  cbn [astep a_env a_out a_tmps a_ctl]. rewrite <- Hlen, Eleb. eexists. split; [reflexivity|]. split.
+  - apply mk_inv; [|eapply ctlok_mono; [|exact HC]; cbn; rewrite app_length; lia]. cbn [app].
+    apply (good_bundle h1 _ (firstn n tmps)); [apply firstn_skipn_perm| |exact Hlive].
+    rewrite app_assoc, firstn_skipn. eapply good_any; eauto.
+  - apply mk_sim; [eauto using env_any|eauto using vals_any| |eauto using ctl_any]. constructor.
+    + unfold vrel. rewrite erase_arr, Hlive.
+      assert (El : erase_list h1 (rev (firstn n tmps)) = Some (rev (firstn n atmps))).
+      { apply erase_list_Forall2. apply Forall2_rev. apply Forall2_firstn. eapply vals_any; eauto. }
+      rewrite El. reflexivity.
+    + apply Forall2_skipn. eapply vals_any; eauto.
+Qed.
+
+Lemma step_index : forall i, StepOK (OIndex i).
+Proof.
+  intros i. start. cbn [step m_tmps m_heap].
+  destruct tmps as [|[x|b| |r a len|r a len cap|r a sid cap items] rest];
+    try (split; [discriminate|intros ? E; discriminate]).
+  inversion St as [|? aarr ? arest Harr Hrest]; subst. unfold vrel in Harr. rewrite erase_arr in Harr.
+  destruct (store_live h r a sid) eqn:Es; [|discriminate].
+  destruct (erase_list h items) as [ys|] eqn:El; [|discriminate]. inversion Harr; subst. clear Harr.
+  destruct (nth_error items i) as [el|] eqn:En; [|split; [discriminate|intros ? E; discriminate]].
+  split; [discriminate|]. intros st' E. inversion E; subst. clear E.
+  apply erase_list_Forall2 in El. destruct (Forall2_nth_error _ _ _ _ _ El En) as (ael & Hael & Hel).
+  cbn [astep a_env a_out a_tmps a_ctl]. rewrite Hael. eexists. split; [reflexivity|]. split.
+  - apply mk_inv; [|exact HC]. cbn [app] in *. apply good_unbundle in HG.
+    destruct (nth_error_perm _ _ _ En) as [others Hp].
+    eapply good_perm in HG; [|apply Permutation_refl|apply Permutation_app_tail; exact Hp].
+    cbn [app] in HG. apply good_split_t in HG. destruct HG as (HG0 & Hlive & Hb & Hn & Hd).
+    apply good_join_t; [eapply good_drop_app; eauto|destruct Hlive as [? ->]; discriminate|exact Hb|exact Hn|].
+    intros j Hj Hj2. apply (Hd j Hj). rewrite !flat_map_app in *. apply in_app_or in Hj2.
+    apply in_or_app. destruct Hj2 as [Hj2|Hj2]; [left; exact Hj2|right; apply in_or_app; right; exact Hj2].
+  - apply mk_sim; [exact Se|exact So| |exact Sc]. constructor; [exact Hel|exact Hrest].
+Qed.
+
+Lemma step_promote : StepOK OPromote.
+Proof.
+  start. cbn [step m_tmps m_heap].
+  destruct tmps as [|v rest]; [split; [discriminate|intros ? E; discriminate]|].
+  inversion St as [|? a ? arest Hv Hrest]; subst. cbn [app] in HG.
+  destruct (good_split_t _ _ _ _ HG) as (_ & _ & Hbv & Hnv & _).
+  destruct HG as (Hwf & HGrest). pose proof (conj Hwf HGrest) as HG.
+  destruct (promote_spec v h a Hwf Hv Hbv Hnv) as (h1 & v' & Hp & Hpost).
+  rewrite Hp. split; [discriminate|]. intros st' E. inversion E; subst. clear E.
+  pose proof Hpost as (Hwf1 & Hext & Ev' & _ & _ & _ & _ & Hfr).
+  cbn [astep a_env a_out a_tmps a_ctl]. eexists. split; [reflexivity|]. split.
+  - apply mk_inv; [|rewrite Hfr; exact HC]. cbn [app]. eapply good_promote_t; eauto.
+  - apply mk_sim; [eauto using env_any|eauto using vals_any| |eauto using ctl_any]. constructor; [exact Ev'|eauto using vals_any].
+Qed.
+
+Lemma step_shout : StepOK OShout.
+Proof.
+  start. cbn [step m_tmps m_heap].
+  destruct tmps as [|v rest]; [split; [discriminate|intros ? E; discriminate]|].
+  inversion St as [|? a ? arest Hv Hrest]; subst. cbn [app] in HG.
+  destruct (good_split_t _ _ _ _ HG) as (_ & _ & Hbv & Hnv & _).
+  destruct HG as (Hwf & HGrest). pose proof (conj Hwf HGrest) as HG.
+  destruct (promote_spec v h a Hwf Hv Hbv Hnv) as (h1 & v' & Hp & Hpost).
+  rewrite Hp. split; [discriminate|]. intros st' E. inversion E; subst. clear E.
+  pose proof Hpost as (Hwf1 & Hext & Ev' & Hnf' & _ & _ & _ & Hfr).
+  cbn [astep a_env a_out a_tmps a_ctl]. eexists. split; [reflexivity|]. split.
+  - apply mk_inv; [|rewrite Hfr; exact HC].
+    eapply good_perm; [| apply Permutation_refl | eapply good_move_ts; [eapply good_promote_t; eauto|exact Hnf']].
+    rewrite app_assoc. apply Permutation_cons_append.
+  - apply mk_sim; eauto using env_any, vals_any, ctl_any.
+    apply Forall2_app; [eauto using vals_any|]. constructor; [exact Ev'|constructor].
 Qed.
